@@ -98,6 +98,8 @@ class Inliner:
         node = copy.deepcopy(unit.node)
         changed = [False]
         node.body = self._block(node.body, unit, (unit.fq,), 0, changed)
+        if _unalias_fields(node, unit):
+            changed[0] = True
         if not changed[0]:
             return unit
         ast.fix_missing_locations(node)
@@ -461,6 +463,65 @@ def _inline_return(at: ast.AST) -> ast.Break:
     b = ast.copy_location(ast.Break(), at)
     b.asl_inline_return = True  # leaves the inlined block (asl.cfg), whatever loops it sits in
     return b
+
+
+def _unalias_fields(node: ast.AST, unit: Unit) -> bool:
+    """``cache = self._cache`` ... ``cache[key]``: a local that is bound once, to a field of ``self`` that no method but
+    ``__init__`` ever re-binds, is the field under another name; its loads are replaced by the field expression so that
+    rules keyed to the field see through the alias.  True if anything was replaced."""
+    if unit.cls is None or not isinstance(node, (ast.FunctionDef, ast.AsyncFunctionDef)):
+        return False
+    args = node.args
+    params = {a.arg for a in list(args.posonlyargs) + list(args.args) + list(args.kwonlyargs)}
+    if args.vararg:
+        params.add(args.vararg.arg)
+    if args.kwarg:
+        params.add(args.kwarg.arg)
+    me = (list(args.posonlyargs) + list(args.args))[0].arg if (args.posonlyargs or args.args) else None
+    if me is None:
+        return False
+    stores: Dict[str, List[ast.AST]] = {}
+    for x in ast.walk(node):
+        if isinstance(x, ast.Name) and isinstance(x.ctx, (ast.Store, ast.Del)):
+            stores.setdefault(x.id, []).append(x)
+        elif isinstance(x, (ast.Global, ast.Nonlocal)):
+            for n_ in x.names:
+                stores.setdefault(n_, []).extend([x, x])
+        elif isinstance(x, ast.ExceptHandler) and x.name:
+            stores.setdefault(x.name, []).extend([x, x])
+
+    def rebound_elsewhere(attr: str) -> bool:
+        for mname, m in unit.cls.methods.items():
+            for x in ast.walk(m.node):
+                if isinstance(x, ast.Attribute) and isinstance(x.ctx, (ast.Store, ast.Del)) and x.attr == attr \
+                        and isinstance(x.value, ast.Name) and mname != "__init__":
+                    return True
+        return False
+
+    aliases: Dict[str, ast.AST] = {}
+    for st in ast.walk(node):
+        if isinstance(st, ast.Assign) and len(st.targets) == 1 and isinstance(st.targets[0], ast.Name):
+            name, val = st.targets[0].id, st.value
+        elif isinstance(st, ast.AnnAssign) and isinstance(st.target, ast.Name) and st.value is not None:
+            name, val = st.target.id, st.value
+        else:
+            continue
+        if name in params or len(stores.get(name, [])) != 1:
+            continue
+        if isinstance(val, ast.Attribute) and isinstance(val.value, ast.Name) and val.value.id == me \
+                and len(stores.get(me, [])) == 0 and not rebound_elsewhere(val.attr):
+            aliases[name] = val
+    if not aliases:
+        return False
+
+    class _Sub(ast.NodeTransformer):
+        def visit_Name(self, n: ast.Name):
+            if isinstance(n.ctx, ast.Load) and n.id in aliases:
+                return ast.copy_location(copy.deepcopy(aliases[n.id]), n)
+            return n
+
+    _Sub().visit(node)
+    return True
 
 
 def _is_field_chain(e: ast.AST) -> bool:
